@@ -266,6 +266,8 @@ def gen_fn(g, header_words, block_lines):
         g.add("#[verifier::external_body] // proved-in-unit " + g.stub)
     for a in attrs:
         g.add(a)
+    if not g.stub and opts.get("isolation") != "on":
+        g.add("#[verifier::loop_isolation(false)]")
     g.add("// <extracted %s %s line %d>" % (path, qual, item.line))
     g.add(emit_trim(sig))
     if spec.strip():
